@@ -30,7 +30,7 @@ ASSUMPTIONS = ["the approved constants are those of vf/oracle/approved.py (copie
                "BillingModel uses the legacy daily profile"]
 REQUIRED_REACH = {"ctor.locked_rejected": 300, "ctor.developer_accepted": 150, "ctor.invalid_rejected": 100,
                   "ctor.nondeveloper_accepted": 40, "ctor.explicit_default_accepted": 100, "defaults.compared": 7, "defaults.compared_in_an_order": 60, "derived.settings_compared": 12,
-                  "validator.check_developer_mode.calls": 500, "stored.param_built": 20, "stored.fitted": 2, "stored.hourly_fit_with_settings_snapshot": 3, "stored.hourly_fit_used_a_supplemental_column": 2,
+                  "validator.check_developer_mode.calls": 500, "stored.param_built": 20, "stored.fitted": 2, "stored.hourly_fit_with_settings_snapshot": 5, "stored.hourly_fit_used_a_supplemental_column": 2,
                   "hourly.valid_accepted": 50, "hourly.invalid_rejected": 70, "cross.judged": 30}
 EXHAUSTIVE = True
 
@@ -431,6 +431,9 @@ def fitted(spec, keys, hist):
         df = synth_hourly(days=120, seed=rng, ghi="solar" in which, occupancy="supp" in which)
         st = {"hourly:custom": dict(seed=3, temperature_bin={"bin_width": 10}, elasticnet={"alpha": 0.05}, cvrmse_threshold=1.2),
               "hourly:solar-robust": dict(seed=4, scaling_method="robustscaler", temporal_cluster={"n_cluster_upper": 8}),
+              # an explicit None on an Optional section / on Optional values inside a section is a value like any other
+              "hourly:none-section": dict(seed=8, temperature_bin=None),
+              "hourly:none-values-in-a-section": dict(seed=9, temperature_bin={"include_edge_bins": False, "edge_bin_rate": None, "edge_bin_percent": None}),
               "hourly:supp": dict(seed=0, supplemental_time_series_columns=["occupancy"]),
               "hourly:supp-explicit": dict(seed=5, train_features=["temperature"], supplemental_time_series_columns=["occupancy"]),
               "hourly:supp-object": dict(seed=6, supplemental_time_series_columns=["occupancy"]),
@@ -550,9 +553,9 @@ def gen_cases(tier, seed):
     cases = [dict(kind="family", family=f) for f in ("current", "legacy", "billing", "hourly")]
     cases += [dict(kind="derived-settings")]
     cases += [dict(kind="defaults-order", batch=b, n_orders=10 if tier == "quick" else 40) for b in range(2 if tier == "quick" else 6)]
-    fits = ["daily:current-nondev", "hourly:custom", "hourly:supp", "hourly:supp-explicit", "hourly:supp-object"] if tier == "quick" else \
+    fits = ["daily:current-nondev", "hourly:custom", "hourly:supp", "hourly:supp-explicit", "hourly:supp-object", "hourly:none-section", "hourly:none-values-in-a-section"] if tier == "quick" else \
         ["daily:current-nondev", "daily:legacy-dev", "daily:current-dev", "daily:billing-default", "hourly:custom", "hourly:solar-robust",
-         "hourly:supp", "hourly:supp-explicit", "hourly:supp-object", "hourly:solar-supp-object"]
+         "hourly:supp", "hourly:supp-explicit", "hourly:supp-object", "hourly:solar-supp-object", "hourly:none-section", "hourly:none-values-in-a-section"]
     cases += [dict(kind="fitted", which=w, batch=i) for i, w in enumerate(fits)]
     return cases
 
